@@ -104,12 +104,18 @@ class ModuleModel:
         interp = self.world.interp
         if isinstance(node, ast.FunctionDef):
             val = Closure(node, None, self, node.name)
+            if node.decorator_list:
+                val = interp.apply_decorators(node, val, Env({}, None, self))
         elif isinstance(node, ast.ClassDef):
             val = ClassModel(node, self)
         elif isinstance(node, ast.ImportFrom):
             val = self.world.import_from(node, name, self)
         elif isinstance(node, ast.Import):
-            val = self.world.import_module_obj(name)
+            real = name
+            for a in node.names:
+                if (a.asname or a.name).split('.')[0] == name:
+                    real = a.name if a.asname else a.name.split('.')[0]
+            val = self.world.import_module_obj(real)
         else:
             if name in self.evaluating:
                 raise Unsupported(f'cyclic module global {name}', node)
@@ -378,7 +384,11 @@ class World:
         modname, qual = target.split(':')
         mod = self.module(modname)
         parts = qual.split('.')
-        obj = mod.lookup(parts[0])
+        node0 = mod.binders.get(parts[0])
+        if isinstance(node0, ast.FunctionDef):
+            obj = Closure(node0, None, mod, node0.name)      # raw, undecorated
+        else:
+            obj = mod.lookup(parts[0])
         for p in parts[1:]:
             if isinstance(obj, ClassModel):
                 cls, node = obj.find(p)
@@ -706,6 +716,9 @@ class Interp:
     # -- arithmetic ---------------------------------------------------------
     def binop(self, op, a, b, node=None):
         from .seqs import SSeq
+        from .calendar_model import SDate, STimedelta, date_binop
+        if isinstance(a, (SDate, STimedelta)) or isinstance(b, (SDate, STimedelta)):
+            return date_binop(self, op, a, b, node)
         if isinstance(a, SObj) or isinstance(b, SObj):
             return self.obj_binop(op, a, b, node)
         if isinstance(a, SSeq) or isinstance(b, SSeq):
@@ -1741,15 +1754,25 @@ class Interp:
         for a in node.names:
             env.vars[a.asname or a.name] = self.world.import_from(node, a.asname or a.name, env.module)
 
-    def s_FunctionDef(self, node, env):
-        f = Closure(node, env, env.module, node.name)
+    METADATA_DECORATORS = ('excel_helper', 'excel_math_func', 'excel_func', 'functools.wraps')
+
+    def apply_decorators(self, node, f, env):
         for d in reversed(node.decorator_list):
             ds = ast.unparse(d)
-            if ds.startswith('functools.wraps'):
-                self.world.dropped.add('decorator functools.wraps (metadata only)')
+            head = ds.split('(')[0]
+            if head in self.METADATA_DECORATORS:
+                self.world.dropped.add(f'decorator @{head} (registration metadata only; the wrappers it '
+                                       f'selects at load time have their own contracts)')
                 continue
+            if head in ('functools.lru_cache', 'lru_cache', 'functools.cache', 'cache'):
+                raise Unsupported(f'memoised function {node.name} called from other code', node)
             dec = self.eval(d, env)
             f = self.call(dec, [f], {}, node)
+        return f
+
+    def s_FunctionDef(self, node, env):
+        f = Closure(node, env, env.module, node.name)
+        f = self.apply_decorators(node, f, env)
         env.vars[node.name] = f
 
     def s_ClassDef(self, node, env):
